@@ -5,6 +5,8 @@ import (
 	"verif/harness/mon/c09"
 	"verif/harness/mon/c10"
 	"verif/harness/mon/c11"
+	"verif/harness/mon/c12"
+	"verif/harness/mon/c14"
 	"verif/harness/mon/c17"
 	"verif/harness/mon/c19"
 )
@@ -14,6 +16,8 @@ func init() {
 	register("C09", c09.Run)
 	register("C10", c10.Run)
 	register("C11", c11.Run)
+	register("C12", c12.Run)
+	register("C14", c14.Run)
 	register("C17", c17.Run)
 	register("C19", c19.Run)
 }
